@@ -185,7 +185,7 @@ class C06(Prop):
                     op = op[:3]
                 commitlib.apply_op(st, op, [], lambda: set())
                 res.append(commitlib.raw_dump(st.db.connection(), "peewee"))
-            st.db.close()
+            storelib.close_peewee(st.db)
             return res
         finally:
             shutil.rmtree(d, ignore_errors=True)
